@@ -769,6 +769,8 @@ def r10_lock_scope(facts):
     locked music mode).  Only those fields may be withheld from a setter by `!setupLocked()`: for any other field the guard makes the
     setter report nothing and do nothing while such a song is loaded (the value set does not come into force until the next file)."""
     out = []
+    if facts.view == 'noSEQ' and not facts.fns.get('OPNMIDIplay::LoadMIDI_post'):
+        return out      # no file formats, no setup lock in this configuration
     lp = facts.fn('OPNMIDIplay::LoadMIDI_post')
     forced = set()
     for b, j, st in lp.cfg.stmts():
@@ -896,11 +898,13 @@ def r11_dumper_overrides(facts):
             out.append(Obl('C18.R11', fn.name, 'stop-at-loop-end forced for the dumper, restored otherwise', st['loc'], 'discharged' if okr else 'finding',
                            why='the other branch calls setLoopHooksOnly(m_setup.loopHooksOnly)' if okr else
                            'the dumper branch switches stop-at-loop-end on and nothing switches it back: after the dumper was selected once, a looping song ends at its first loop end with every emulator'))
-    if n < 3:
+    if n < 3 and facts.view not in ('noVGM', 'noSEQ'):
         raise build.AnalysisBroken('C18.R11: dumper branches that force stop-at-loop-end not found (%d)' % n)
     st_ = None
     for fn in exported(facts):
         if fn.name == 'opn2_setLoopHooksOnly' and fn.tree is not None:
+            if not any(short(callee_name(x)) == 'setLoopHooksOnly' for b, j, st in fn.cfg.stmts() for x in calls_in(st['s'])):
+                continue        # the sequencer is compiled out: the setter is a stub
             for b, j, st in fn.cfg.stmts():
                 ap = assign_parts(st['s'])
                 if ap and short(strip(ap[0]).get('n', '')) == 'loopHooksOnly' and 'Setup' in strip(ap[0]).get('n', ''):
